@@ -7,6 +7,7 @@ import (
 	"github.com/tendermint/fundraising/x/fundraising/types"
 
 	"verif/harness/env"
+	"verif/harness/model"
 	"verif/harness/nd"
 )
 
@@ -16,7 +17,8 @@ func init() {
 
 // bystanderSpec: an auction that has nothing due in the coming block.
 func bystanderSpec(prefix string, id uint64) aSpec {
-	sp := aSpec{id: id, auctioneer: 0, nUsers: 1, allowAll: true, nEnd: 1}
+	// its own auctioneer (user 3), so that a payment that goes to the wrong auction's auctioneer is visible
+	sp := aSpec{id: id, auctioneer: 3, nUsers: 1, allowAll: true, nEnd: 1}
 	sp.status = allStatuses[nd.Pick(prefix+"status", 5)]
 	switch sp.status {
 	case types.AuctionStatusStarted:
@@ -154,6 +156,12 @@ func H_Block2() {
 	if mode == 1 {
 		order = nd.Pick("failAt", nd.Param("maxFail", 5)) + 1
 	}
+	// failMode=2: a listener vetoes the settlement of A (BeforeSellingCoinsAllocated); B comes later in the block
+	var veto *model.Listener
+	if mode == 2 {
+		veto = &model.Listener{Name: "veto", FailOn: "BeforeSellingCoinsAllocated"}
+		e.SetHooks(types.NewMultiFundraisingHooks(&model.Listener{Name: "agree"}, veto))
+	}
 	e.ResetCalls()
 	e.FailAt(order)
 	preB := snapRecords(e, 1)
@@ -163,6 +171,15 @@ func H_Block2() {
 	panicked := nd.Try(func() { err = e.K.BeginBlocker(e.Ctx) })
 	nd.Assert("C07.block2-does-not-panic", !panicked)
 	if panicked {
+		return
+	}
+	if mode == 2 {
+		vetoed := veto.Count("BeforeSellingCoinsAllocated") > 0
+		nd.Assert("C17.settlement-veto-is-reported-whichever-auction", !vetoed || err != nil)
+		nd.Assert("C17.settlement-veto-called-once", veto.Count("BeforeSellingCoinsAllocated") <= 1)
+		if vetoed {
+			nd.Cover("settlement-vetoed")
+		}
 		return
 	}
 	injected := e.FailureInjected()
@@ -185,6 +202,11 @@ func H_Block2() {
 		post.get(B.sellingAddr(), denomSell).EQ(pre.get(B.sellingAddr(), denomSell)),
 		post.get(B.payingAddr(), denomPay).EQ(pre.get(B.payingAddr(), denomPay)),
 		post.get(B.vestingAddr(), denomPay).EQ(pre.get(B.vestingAddr(), denomPay))))
+	// C09: instalments are paid from the auction they belong to, to its own auctioneer: the bystander's auctioneer
+	// (a different account) receives nothing in a block in which nothing of B is due
+	bAuct := addr(B.base.Auctioneer)
+	nd.Assert("C09.nothing-paid-to-an-auctioneer-with-nothing-due", post.get(bAuct, denomPay).EQ(pre.get(bAuct, denomPay)))
+	nd.Assert("C09.bystander-vesting-escrow-untouched", post.get(B.vestingAddr(), denomPay).EQ(pre.get(B.vestingAddr(), denomPay)))
 	// and A's escrows still obey C01 with B present
 	os, op, ov := owed(e, 0)
 	settledNow := spA.status != types.AuctionStatusVesting && spA.status != types.AuctionStatusFinished &&
